@@ -153,7 +153,7 @@ class DM:
 
         # stash inputs and some computed values on self
         self.ifn = ifn
-        self.Ifn = fft.fft2(ifn)
+        self.Ifn = fft.fft2(fft.ifftshift(ifn))
         self.Nout = Nout
         self.Nact = Nact
         self.sep = sep
